@@ -17,7 +17,7 @@ from ..symreal.core import S, symarr, vjp, new_session, evalarr
 from ..symreal.discharge import prove_equal
 from ..symreal.pool import run_catalogue
 
-ALPHABET = ["B0", "B1", "B2", "B3", "B4", "B5", "B6", "B7", "B8", "B9", "B10", "BN_train", "REG_d", "REFUSED_last", "BW_last", "BW_prev", "BW_int", "BW_leaf_a", "BWG_last", "BWR_last", "BWR_int", "RET_int", "RET_last", "AUG_c", "Z_a", "Z_mod", "Z_opt"]
+ALPHABET = ["B0", "B1", "B2", "B3", "B4", "B5", "B6", "B7", "B8", "B9", "B10", "B11", "B12", "BN_train", "REG_d", "REFUSED_last", "BW_last", "BW_prev", "BW_int", "BW_leaf_a", "BWG_last", "BWR_last", "BWR_int", "RET_int", "RET_last", "AUG_c", "Z_a", "Z_mod", "Z_opt"]
 DESCR = {"B9": "sum_k w_k * stack([c, a, c, b])[k]  (constants in front of and between the operands that require grad)", "B10": "eval-mode BatchNorm1d over the batch (a, b), weighted sum",
          "BN_train": "a training-mode forward through that layer on other data (rewrites its running statistics)", 
     "B0": "r = a * b", "B1": "m = a + b; r = m * a", "B2": "r = sum(a * a)", "B3": "r = <previous result> * b  (reuse of an earlier result)", "B4": "m = exp(b); r = m * c", "B5": "u = unbind(a); r = u[0] * b + u[1] + a   (multi-output op whose operand is also used directly)",
@@ -50,7 +50,8 @@ class World:
         self.d = Parameter(self._arr("d", self.shape), requires_grad=True)      # registered late (event REG_d), never given to the optimizer
         self.d_registered = False
         self.e = Parameter(self.a)          # a SECOND parameter object tied to a's storage (weight tying): its own flags and gradient, the same data array
-        self.leaves = {"a": self.a, "b": self.b, "c": self.c, "d": self.d, "e": self.e}
+        self.f = Parameter(self._arr("f", self.shape), requires_grad=True)      # held in a plain Python list of the module and reported by its OVERRIDDEN parameters()
+        self.leaves = {"a": self.a, "b": self.b, "c": self.c, "d": self.d, "e": self.e, "f": self.f}
 
         class Inner(Module):
             pass
@@ -63,6 +64,10 @@ class World:
                 s.pc = self.c
                 s.pe = self.e
                 s.inner = Inner()
+                object.__setattr__(s, "extra", [self.f])
+
+            def parameters(s):
+                return super().parameters() + s.extra
         self.module = Holder()
         self.optim = SGD([self.a, self.b], lr=0.1)
         self.results = []       # roots in build order
@@ -148,6 +153,13 @@ class World:
             self.bn.eval()
             x = F.stack([F.reshape(a, (-1,)), F.reshape(b, (-1,))], 0)
             self.results.append(F.reshape(F.sum(self.bn(x) * F.stack([F.reshape(c, (-1,)), F.reshape(c, (-1,)) + 1.0], 0), 0), self.shape))
+        elif ev == "B11":
+            # an interior tensor as the EARLIER operand of an op whose later operand is computed from it
+            h = a * b
+            self.interiors.append(h)
+            self.results.append(h + F.exp(h))
+        elif ev == "B12":
+            self.results.append(self.f * a)
         elif ev == "BN_train":
             if getattr(self, "bn", None) is not None:
                 from synapgrad.tensor import Tensor
@@ -250,8 +262,8 @@ class HistoryCase:
         fail = None
         with shim.symbolic(eps="native"):
             w = World("sym", sess, shape=self.shape)
-            acc = {"a": None, "b": None, "c": None, "d": None, "e": None}
-            leafsym = {k: symarr(k, self.shape) for k in "abcd"}
+            acc = {"a": None, "b": None, "c": None, "d": None, "e": None, "f": None}
+            leafsym = {k: symarr(k, self.shape) for k in "abcdf"}
             leafsym["e"] = leafsym["a"]         # tied storage: the same symbols (no template uses a and e in one graph)
             nel = int(np.prod(self.shape)) if self.shape else 1
             flat = lambda x: np.asarray(x, dtype=object).reshape(-1)
@@ -292,6 +304,7 @@ class HistoryCase:
                     acc["b"] = zeros()
                     if ev == "Z_mod":
                         acc["e"] = zeros()
+                        acc["f"] = zeros()          # the module resets what its (overridden) parameters() reports
                     if ev == "Z_mod" and w.d_registered:
                         acc["d"] = zeros()          # the module resets exactly the parameters registered below it NOW
                 try:
@@ -403,7 +416,7 @@ class HistoryCase:
         from ..symreal.harness import var_names
         rng = random.Random("%s|%d" % (self.events, seed))
         point = {}
-        for k in "abcd":
+        for k in "abcdf":
             for n in var_names(k, self.shape):
                 point[n] = rng.choice([-1, 1]) * rng.uniform(0.3, 2.0)
         for gi in range(len(self.events) + 1):
@@ -425,7 +438,7 @@ class HistoryCase:
             return rep
         exp = {}
         bad = []
-        for k in "abde":
+        for k in "abdef":
             exp[k] = None if acc[k] is None else evalarr(np.asarray(acc[k], dtype=object), point).reshape(self.shape)
             g = got[k]
             if exp[k] is None:
@@ -475,7 +488,7 @@ def histories(tier, seed):
     maxlen = 3
     for n in range(1, maxlen + 1):
         for h in itertools.product(ALPHABET, repeat=n):
-            if h[0] not in ("B0", "B1", "B2", "B3", "B4", "B5", "B6", "B7", "B8", "B9", "BW_leaf_a", "Z_a", "Z_mod", "Z_opt") or "B10" in h or "BN_train" in h:
+            if h[0] not in ("B0", "B1", "B2", "B3", "B4", "B5", "B6", "B7", "B8", "B9", "BW_leaf_a", "Z_a", "Z_mod", "Z_opt") or "B10" in h or "BN_train" in h or "B11" in h or "B12" in h:
                 continue
             if not any(e.startswith("BW") for e in h):
                 continue
@@ -515,6 +528,10 @@ def histories(tier, seed):
         hs.append(h)
     # a stateful layer used in eval mode, its statistics rewritten by a training forward, THEN the eval-mode graph is swept (and swept again)
     for h in (("B10", "BN_train", "BW_last"), ("B10", "BW_last", "BN_train", "BW_last"), ("B10", "BN_train", "B10", "BW_prev", "BW_last"), ("B9", "BW_last", "B9", "BW_last", "BW_prev")):
+        hs.append(h)
+    # an interior tensor feeding an op directly and through a second path listed later; a leaf reported only by an overridden parameters()
+    for h in (("B11", "BW_last"), ("B11", "BW_last", "BW_last"), ("B11", "RET_int", "BW_last", "BW_int"), ("B11", "BWR_last", "Z_a", "BW_last"),
+              ("B12", "BW_last", "Z_mod", "B12", "BW_last"), ("B12", "BW_last", "Z_mod"), ("B12", "BW_last", "Z_opt", "BW_last", "Z_mod", "BW_last")):
         hs.append(h)
     # late registration: the module is queried (zero_grad) before and after a parameter is attached to a nested module
     for pre in (("Z_mod",), ("B7", "BW_last", "Z_mod"), ()):
